@@ -28,6 +28,9 @@ type c06Case struct {
 	Deleting bool
 	Desired  bool
 	N        int
+	// Doomed: one more child of the same kind, no longer desired, whose DELETE the API server keeps refusing
+	// (403): its failure is reported, and changes nothing for the other children
+	Doomed bool
 }
 
 func c06Expected(c c06Case) (verbs []string, wantErr bool, followup []string) {
@@ -121,7 +124,11 @@ func c06Run(c c06Case) []mc.Finding {
 	w.Hooks.Handle("/cc/sync", world.JSON(func(req map[string]interface{}) interface{} {
 		switch phase {
 		case 0:
-			return kit.M{"status": kit.M{}, "children": c06Desired(k, names, c, false)}
+			ch := c06Desired(k, names, c, false)
+			if c.Doomed {
+				ch = append(ch, kit.Field(kit.Obj(k, "", "zz-gone"), "1", "spec", "v"))
+			}
+			return kit.M{"status": kit.M{}, "children": ch}
 		default:
 			if !c.Desired {
 				return kit.M{"status": kit.M{}, "children": kit.L{}}
@@ -162,6 +169,16 @@ func c06Run(c c06Case) []mc.Finding {
 	w.Sim.ResetLog()
 	phase = 1
 	wantVerbs, wantErr, wantFollow := c06Expected(c)
+	if c.Doomed {
+		wantErr = true
+		w.Sim.Plan = func(r *sim.Request) *sim.Fault {
+			if r.Kind == k && r.Name == "zz-gone" && r.Verb == "delete" {
+				return &sim.Fault{Code: 403, Reason: "Forbidden"}
+			}
+			return nil
+		}
+		defer func() { w.Sim.Plan = nil }()
+	}
 	fp := vcache.TakeFingerprint()
 	err, p, stack := w.syncKey("n1/p")
 	if p != nil {
@@ -232,9 +249,9 @@ func c06Run(c c06Case) []mc.Finding {
 func TestVerifC06(t *testing.T) {
 	r := mc.NewReport("C06", "composite")
 	defer r.Write()
-	dims := []int{len(c06Methods), 2, len(c06Classes), 2, 2, 2}
+	dims := []int{len(c06Methods), 2, len(c06Classes), 2, 2, 2, 2}
 	mc.Product(r, dims, func(idx int, d []int) {
-		c := c06Case{Method: c06Methods[d[0]], Kind: []string{"Leaf", "Widget"}[d[1]], Class: c06Classes[d[2]], Deleting: d[3] == 1, Desired: d[4] == 0, N: d[5] + 1}
+		c := c06Case{Method: c06Methods[d[0]], Kind: []string{"Leaf", "Widget"}[d[1]], Class: c06Classes[d[2]], Deleting: d[3] == 1, Desired: d[4] == 0, N: d[5] + 1, Doomed: d[6] == 1}
 		verbs, wantErr, _ := c06Expected(c)
 		nt := ""
 		if len(verbs) > 0 || wantErr {
